@@ -1,11 +1,12 @@
 #!/bin/bash
-# usage: seedbatch.sh <list file: "Cxx v TestName" per line>  — verify + check each seed
-while read p v t; do
+# usage: seedbatch.sh <list file: "Cxx v TestName [pkgdir]" per line>  — verify + check each seed
+while read p v t pkg; do
   [ -z "$p" ] && continue
+  pkg=${pkg:-test}
   d=/tmp/seed/out_$p
   echo "######## $p$v"
-  /verif/tools/seedverify.sh $d/$v.diff $d/${v}_demo_test.go test "$t" 2>&1 | grep -E '^SUITE|^DEMO|RESULT' | tr '\n' ';'; echo
+  /verif/tools/seedverify.sh $d/$v.diff $d/${v}_demo_test.go $pkg "$t" 2>&1 | grep -E '^SUITE|^DEMO|RESULT' | tr '\n' ';'; echo
   /verif/tools/seedcheck.sh $d/$v.diff > /tmp/seed/check_$p$v.txt 2>&1
-  grep -E 'violation:' /tmp/seed/check_$p$v.txt | sort -u | cut -c1-300 | head -6
+  grep -E 'violation:' /tmp/seed/check_$p$v.txt | sort -u | cut -c1-300 | head -5
   grep -E 'DETECTED_BY|ERROR' /tmp/seed/check_$p$v.txt
 done < "$1"
